@@ -19,6 +19,7 @@ ob("HIrelease_accrec_node", ["C13"], entry="h_HIrelease_accrec_node", enforce="H
 ob("hi_close_stdio", ["C16"], entry="h_hi_close_stdio", enforce="hi_close_stdio", **HF)
 ob("Hstartaccess", ["C13", "C14"], entry="h_Hstartaccess", enforce="Hstartaccess", replace=["HIrelease_accrec_node"], **HF)
 ob("Hendaccess", ["C13"], entry="h_Hendaccess", enforce="Hendaccess", replace=["HIrelease_accrec_node"], **HF)
+ob("HPcompare_accrec_tagref", ["C01", "C13"], entry="h_HPcompare_accrec_tagref", enforce="HPcompare_accrec_tagref", **HF)
 ob("HIsync", ["C16", "C17"], entry="h_HIsync", enforce="HIsync", **HF)
 ob("Hclose", ["C13", "C16"], entry="h_Hclose", enforce="Hclose", **HF)
 
